@@ -10,6 +10,7 @@ import (
 	"github.com/evolbioinfo/goalign/align"
 	"github.com/evolbioinfo/goalign/distance/dna"
 
+	"verif/lib/conc"
 	"verif/lib/gen"
 	"verif/lib/h"
 	"verif/lib/mon"
@@ -530,10 +531,12 @@ func main() {
 	mon.Floor("cli:distboot:frac:0.5", 8)
 	mon.Floor("cli:distboot:no-seed", 8)
 	mon.Floor("cli:distboot:first-alignment-of-several", 15)
+	mon.Floor("concurrent:calls", 500)
 	mon.Main("C07", []mon.Sub{
 		{Name: "witness", Quick: 13, Thorough: 13, Run: runWitness},
 		{Name: "matrix", Quick: 300000, Thorough: 6000000, Run: runMatrix},
 		{Name: "reuse", Quick: 60000, Thorough: 1200000, Run: runReuse},
+		{Name: "concurrent", Quick: 64, Thorough: 1200, Race: true, Run: func(c *mon.Case) { conc.Run(c, "ntdist") }},
 		{Name: "cli", Quick: 480, Thorough: 6000, Run: runCli},
 	})
 }
